@@ -315,6 +315,8 @@ def one_play(case, store, script):
             continue
         out[c]["cmps"].append(project(store, cmp_, journal[mark:]))
     return {"cats": cats, "results": [out[c] for c in cats], "tuner_calls": tuner.calls,
+            "journal": list(journal),      # every run of a playback function since play() was called
+
             "lookups": [[c, l] for c, l in store.lookups], "recorder_idle": store.recorder._playback_recording is None
             and not store.recorder._playback_outputs and store.recorder._active_recording is None}
 
